@@ -22,8 +22,22 @@ from vf import core, tlaval, tlc
 from vf import table as vtable
 
 # ----------------------------------------------------------------------------- concretisation tables
-# abstract name -> real name (a single-character name, a non-ASCII name, names with a space)
-NAMES = {"a": "a", "bb": "b\u00e9", "dd": "dd", "ee": "e e", "x": "x", "yy": "y y"}
+# abstract name -> real name (a non-ASCII name, names with a space); every fourth history uses a one-character
+# name for "a" as well (set_names)
+NAME_VARIANTS = ({"a": "ab", "bb": "b\u00e9", "dd": "dd", "ee": "e e", "x": "x", "yy": "y y"},
+                 {"a": "a", "bb": "b\u00e9", "dd": "dd", "ee": "e e", "x": "x", "yy": "y y"})
+NAMES = dict(NAME_VARIANTS[0])
+_INV_NAMES = {v: k for k, v in NAMES.items()}
+
+
+def set_names(idx):
+    """Choose the concretisation of names for history number idx (workers handle one history at a time)."""
+    NAMES.clear()
+    NAMES.update(NAME_VARIANTS[1 if idx % 4 == 3 else 0])
+    _INV_NAMES.clear()
+    _INV_NAMES.update({v: k for k, v in NAMES.items()})
+
+
 # content index -> file text; 4 is also the text of link target 1 (same git blob for a file and a symlink)
 FILE_TEXT = {1: b"one\n", 2: b"two\nlines\n", 3: b"", 4: b"a"}
 LINK_TARGET = {1: "a", 2: "dd/x", 3: "../up", 4: "e e"}
@@ -33,7 +47,6 @@ TS0, TS_STEP = 1000000000, 86400
 TZS = [0, 3600, -12600, 19800]
 ROOT_ID = b"root-id"
 
-_INV_NAMES = {v: k for k, v in NAMES.items()}
 _INV_TEXT = {hashlib.sha1(v).hexdigest(): k for k, v in FILE_TEXT.items()}
 _INV_TARGET = {v: k for k, v in LINK_TARGET.items()}
 UNKNOWN = -1
@@ -72,14 +85,16 @@ def consts(**kw):
     return c
 
 
-TREES = consts()                                                       # tree-edit richness, 2 revisions
+TREES = consts()                                                       # tree-edit richness, <= 2 revisions
 GRAPH = consts(TopNames='{"a", "bb"}', DirNames="{}", ChildNames="{}", SubDirs="FALSE", MaxRevs=3, MaxEdits=1,
-               TagNames="{}")                                          # graph richness: branches, merges, roots
+               TagNames="{}")                                          # every graph <= 3 revisions (merges, roots)
 TREES_T = consts(NContents=2)                                          # thorough: two contents / link targets
 GRAPH_T = consts(TopNames='{"a", "bb"}', DirNames="{}", ChildNames="{}", SubDirs="FALSE", MaxRevs=4, MaxEdits=1,
-                 TagNames="{}", NewRoots="FALSE")
+                 TagNames="{}", NewRoots="FALSE")                      # thorough: every one-root graph <= 4 revisions
+SMALL = consts(TopNames='{"a", "bb", "dd"}', DirNames='{"dd"}', ChildNames='{"x"}', NContents=2, MaxRevs=3, MinRevs=2,
+               MaxEdits=2, NMsg=2, NWho=2, NTz=2, MetaChoices=2)
 LARGE = consts(TopNames='{"a", "bb", "dd", "ee"}', DirNames='{"dd", "ee"}', ChildNames='{"x", "yy"}', NContents=4,
-               MaxEdits=3, NMsg=4, NWho=4, NTs=3, NTz=4, MetaChoices=3, TagNames='{"t1", "t2"}', Pointless="TRUE")
+               MinRevs=2, MaxEdits=3, NMsg=4, NWho=4, NTs=3, NTz=4, MetaChoices=3, TagNames='{"t1", "t2"}', Pointless="TRUE")
 
 _last_state = re.compile(r"STATE_(\d+) ==\s*\n(.*?)(?=^\\\* |\Z|^={4,})", re.M | re.S)
 
@@ -135,13 +150,12 @@ def universe(ctx, nsmall, nlarge, max_revs):
         tlc.check(ctx, "HistoryChannelGen", cfg_text=vtable.cfg(c, INVARIANTS), label="exhaustive " + name, timeout=3000)
     for i, w in enumerate(WITNESSES):
         witness_by_simulation(ctx, LARGE, w, ctx.seed * 100 + i)
-    hs = []
-    small = consts(TopNames='{"a", "bb", "dd"}', DirNames='{"dd"}', ChildNames='{"x"}', NContents=2, MaxRevs=3,
-                   MinRevs=2, MaxEdits=2, NMsg=2, NWho=2, NTz=2, MetaChoices=2)
-    hs += simulate_histories(ctx, small, nsmall, 30, ctx.seed * 10 + 1, "simulate small")
-    for k, mr in enumerate(range(2, max_revs + 1)):
-        hs += simulate_histories(ctx, dict(LARGE, MaxRevs=max_revs, MinRevs=mr), nlarge // (max_revs - 1) + 1, 45,
-                                 ctx.seed * 10 + 2 + k, "simulate large, >= %d revisions" % mr)
+    hs = simulate_histories(ctx, SMALL, nsmall, 30, ctx.seed * 10 + 1, "simulate small")
+    runs = [(max_revs, 3, 2), (max_revs, 2, 2), (max_revs, 1, 2), (3, 3, 2)] + ([] if q else [(max_revs, 3, 3)])
+    for k, (mr, me, mp) in enumerate(runs):
+        hs += simulate_histories(ctx, dict(LARGE, MaxRevs=mr, MinRevs=min(mr, 3), MaxEdits=me, MaxParents=mp),
+                                 nlarge // len(runs) + 1, 45, ctx.seed * 10 + 2 + k,
+                                 "simulate large, <= %d revisions, <= %d edits, <= %d parents" % (mr, me, mp))
     seen, out = set(), []
     for h in hs:
         k = hkey(h)
